@@ -59,7 +59,7 @@ structure InvS (s : State) : Prop where
   smAvail : ∀ k, (s.sm k).tokens ≠ [] → (s.sm k).count = 0
   smReg : ∀ r k, susp s r (.acquire k) → r ∈ (s.sm k).tokens
   bcReg : ∀ r b, susp s r (.bwait b) → r ∈ (s.bc b).tokens ∧ (s.R r).wepoch = (s.bc b).epoch
-  cdReg : ∀ r k, susp s r (.cwait k) → (s.cd k).tok = some r
+  cdReg : ∀ r k, susp s r (.cwait k) → (s.cd k).tok = some r ∧ (s.cd k).conds ≠ []
   joinReg : ∀ r t, susp s r (.join t) →
       ((s.R t).joiner = some r ∧ (s.R t).freed = false ∧ t < s.n) ∨ (s.R r).canceled = true
   freedDead : ∀ r, (s.R r).freed = true → (s.R r).state = .dead
